@@ -67,9 +67,63 @@ def _field_bit(p):
     return bool(fs) and fs[-1].get('name') == 'writable' and fs[-1].get('adt') and last_seg(fs[-1]['adt']) in CARRIERS_WITH_BIT
 
 
+def _guard_helper(facts, h):
+    """index of the bool parameter p of a crate-local helper of the form `fn(p) -> Result<()> { if !p { return Err(..) } Ok(()) }` (require_writable), or None"""
+    cache = getattr(facts, '_guard_helpers', None)
+    if cache is None:
+        cache = facts._guard_helpers = {}
+    if h.path in cache:
+        return cache[h.path]
+    res = None
+    bools = [i for i in range(1, h.argc + 1) if h.locals[i]['ty'] == 'bool']
+    if len(bools) == 1 and len(h.blocks) <= 12 and h.locals[0]['ty'].startswith('std::result::Result<()'):
+        from reach import pruned_blocks
+        p = bools[0]
+
+        def kinds(live):
+            ks = set()
+            for bb in live:
+                for s in h.blocks[bb]['stmts']:
+                    if s['k'] == 'assign' and s['p']['l'] == 0 and s['rv']['k'] == 'agg':
+                        ks.add(s['rv'].get('variant'))
+            return ks
+        if kinds(pruned_blocks(h, {p: True})) == {'Ok'} and kinds(pruned_blocks(h, {p: False})) == {'Err'}:
+            res = p
+    cache[h.path] = res
+    return res
+
+
 def writable_tests(facts, fn, du):
     """[(switch_bb, true_target (writable), false_target (read-only))]"""
     out = []
+    # a guard helper applied to the writable bit and followed by `?`:  require_writable(self.writable)?
+    from flow import result_switch
+    for bb in sorted(fn.reachable_blocks()):
+        t = fn.term(bb)
+        if t['k'] != 'call':
+            continue
+        c = callee_of(t)
+        h = None
+        if c:
+            r = c.get('resolved')
+            h = facts.by_path.get(r['path']) if r and r['local'] else (facts.by_path.get(c['path']) if c['local'] else None)
+        if h is None:
+            continue
+        p = _guard_helper(facts, h)
+        if p is None or p - 1 >= len(t['args']):
+            continue
+        a = op_place(t['args'][p - 1])
+        if a is None:
+            continue
+        if a['pr']:
+            isw, inv = _field_bit(a), False
+        else:
+            isw, inv = resolve_bool(facts, fn, du, a['l'])
+        if not isw or inv:
+            continue
+        rs = result_switch(fn, bb)
+        if rs and rs['ok'] is not None and rs.get('err') is not None:
+            out.append((rs['switch_bb'], rs['ok'], rs['err']))
     for bb in sorted(fn.reachable_blocks()):
         t = fn.term(bb)
         if t['k'] != 'switch':
